@@ -95,6 +95,8 @@ def coq_op(op, res, n):
     k = t[0]
     if res.split()[0] == "SKIP":
         return "OSkip"
+    if k == "accept":
+        return "(OAccept %s)" % t[1]
     if k in ("add", "addid"):
         return "(OAdd %s %s)" % (t[1], "true" if k == "addid" else "false")
     cmds = {"init": "CInit %s []", "choke": "CChoke %s", "unchoke": "CUnchoke %s", "int": "CInterested %s",
@@ -204,7 +206,7 @@ def protocol_scenario(rng, npeers, n, steps, weights=None):
         alive.append(nxt)
         nxt += 1
     w = weights or {"unchoke": 5, "choke": 3, "have": 5, "done": 6, "cancel": 3, "int": 1, "nint": 1, "req": 1,
-                    "kill": 1, "bf": 1, "bfsparse": 2, "stats": 1, "join": 1, "tresp": 1}
+                    "kill": 1, "bf": 1, "bfsparse": 2, "stats": 1, "join": 1, "tresp": 1, "accept": 2}
     names = list(w)
     for _ in range(steps):
         if not alive:
@@ -235,9 +237,23 @@ def protocol_scenario(rng, npeers, n, steps, weights=None):
             ops += ["add %d" % nxt, "init %d" % nxt, "bf %d %s" % (nxt, rand_bits(rng, n))]
             alive.append(nxt)
             nxt += 1
+        elif k == "accept":
+            # an incoming connection through the real listener path: from a new address (then it speaks like any other
+            # peer; the listener may turn it away) or -- a reconnect before the old connection is known to be dead, or a
+            # hostile peer -- from the address of a peer that came in this way and is still connected
+            mine = [x for x in alive if x >= 100]
+            if mine and rng.random() < 0.45:
+                ops.append("accept %d" % rng.choice(mine))
+            else:
+                kk = 100 + nxt
+                ops += ["accept %d" % kk, "init %d" % kk, "bf %d %s" % (kk, rand_bits(rng, n))]
+                if rng.random() < 0.6:
+                    ops.append("unchoke %d" % kk)
+                alive.append(kk)
+                nxt += 1
         elif k == "tresp":
             # a tracker answer listing connected peers, new addresses and the same address more than once
-            pool = alive + [nxt + 20, nxt + 21, nxt + 22]
+            pool = [x for x in alive if x < 100] + [nxt + 20, nxt + 21, nxt + 22]      # (loopback peers have other addresses)
             lst = [rng.choice(pool) for _ in range(rng.choice([0, 1, 2, 4]))]
             if lst and rng.random() < 0.5:
                 lst.append(lst[0])
